@@ -7,12 +7,12 @@ same group values), `BaseMergedParser._date_time_resolution/_resolve_ampm`, `Bas
 import datetime
 import itertools
 
-from lib import common, dtres
+from lib import common, dtres, timeperiodcorr
 from lib.common import cps
 
 PROP = 'C07'
 LEVEL = 'proof'
-PROPS_MODULES = ['RTV.Props.C07', 'RTV.Props.C07Ranges']
+PROPS_MODULES = ['RTV.Props.C07', 'RTV.Props.C07Ranges', 'RTV.Props.C07TimePeriod']
 GEN = ['chartables', 'dtmaps']
 REQUIRED_THEOREMS = ['clock24', 'clock24_partial', 'clock24_hour0_unresolved', 'clock24_hour0_repaired', 'clock12',
                      'clock12_partial', 'ambiguous_two_readings', 'date_at_time', 'date_at_time_unambiguous',
@@ -23,7 +23,12 @@ REQUIRED_THEOREMS = ['clock24', 'clock24_partial', 'clock24_hour0_unresolved', '
                      'night_attached_shift', 'time_of_today_pm_word', 'time_of_today_morning', 'tonight_examples',
                      'time_range_unambiguous', 'time_range_span', 'time_range_resolution_plain', 'time_range_resolution_ampm',
                      'timerange_pm_overflow_witness', 'timerange_loose_timex_witness', 'time_range_duration_guard',
-                     'time_range_duration_repaired']
+                     'time_range_duration_repaired',
+                     # Props/C07TimePeriod (BaseTimePeriodParser / BaseDateTimeParser computations)
+                     'pure_pm_rule', 'pure_am_rule', 'pure_triple_consistent', 'specific_both_described',
+                     'specific_triple_consistent', 'specific_12am_end_witness', 'specific_seconds_witness',
+                     'specific_minute_side_witness', 'parse_specific_shadows_merge', 'tod_table_rows', 'tod_windows',
+                     'now_is_reference_datetime', 'end_of_day_is_235959', 'ago_later_seconds', 'ago_later_spec']
 RULE = ('unit: DateTimeFormatUtil over full ranges (luis_time/short_time 24x60x{none,0..59}, luis_date, format_*, '
         'to_pm, all_str_to_pm); match_to_time on every match of AtRegex/TimeRegex1..11/ConnectNumRegex over generated '
         'English time strings (digits x minutes x seconds x am/pm spellings x prefixes x suffixes x written forms); '
@@ -1110,4 +1115,5 @@ def correspond(ctx):
     unit_merge(ctx, T, variant)
     unit_time_of_today(ctx, T)
     unit_time_ranges(ctx, T)
+    timeperiodcorr.run(ctx, T)   # BaseTimePeriodParser / BaseDateTimeParser computations (RTV.Model.TimePeriod; Props/C07TimePeriod)
     pipeline(ctx, variant)
